@@ -20,11 +20,106 @@ func os2ip(name string, off, n int) *absint.Term {
 
 // known evaluates a 0/1 term under the path's assumptions.
 func known(it *absint.Interp, t *absint.Term) (val bool, ok bool) {
-	k, isC := it.ApplyTerm(t).IsConst()
+	a := it.ApplyTerm(t)
+	k, isC := a.IsConst()
 	if !isC {
+		switch entailed(it, a) {
+		case triTrue:
+			return true, true
+		case triFalse:
+			return false, true
+		}
 		return false, false
 	}
 	return k.Sign() != 0, true
+}
+
+// compoundAssumption is the product of the path's compound branch conditions (those that are not a single atom or
+// its negation, which the interpreter has already turned into bindings): a 0/1 term that is 1 on this path.
+func compoundAssumption(it *absint.Interp) *absint.Term {
+	asm := absint.TInt(1)
+	n := 0
+	for _, g := range it.Guards {
+		c := it.ApplyTerm(g.Cond)
+		if _, isC := c.IsConst(); isC || !c.IsPred() {
+			continue
+		}
+		if lo, hi := c.Bounds(); lo.Sign() < 0 || hi.Cmp(big.NewInt(1)) > 0 {
+			continue
+		}
+		if !g.Taken {
+			c = absint.TInt(1).Sub(c)
+		}
+		next := asm.Mul(c)
+		if next == nil || len(next.PredAtoms()) > 8 {
+			continue
+		}
+		asm = next
+		n++
+	}
+	if n == 0 {
+		return nil
+	}
+	return asm
+}
+
+// entailed decides a 0/1 term under the path's compound branch conditions by enumerating the truth assignments of
+// the atoms involved (atoms are treated as independent, which only enlarges the set of assignments considered).
+func entailed(it *absint.Interp, a *absint.Term) tri {
+	if !a.IsPred() {
+		return triUnknown
+	}
+	asm := compoundAssumption(it)
+	if asm == nil {
+		return triUnknown
+	}
+	if lo, hi := a.Bounds(); lo.Sign() < 0 || hi.Cmp(big.NewInt(1)) > 0 {
+		return triUnknown
+	}
+	zero := func(t *absint.Term) bool {
+		if t == nil || len(t.PredAtoms()) > 10 {
+			return false
+		}
+		lo, hi := t.Bounds()
+		return lo.Sign() == 0 && hi.Sign() == 0
+	}
+	if zero(asm.Mul(a)) {
+		return triFalse
+	}
+	if zero(asm.Mul(absint.TInt(1).Sub(a))) {
+		return triTrue
+	}
+	return triUnknown
+}
+
+// triConj decides the conjunction of 0/1 terms on the path: term by term first, then jointly under the compound
+// branch conditions (a path taken because "x or y is out of range" excludes "x and y in range" although neither
+// conjunct is decided alone).
+func triConj(it *absint.Interp, ts ...*absint.Term) tri {
+	prod := absint.TInt(1)
+	r := triTrue
+	for _, t := range ts {
+		v, ok := known(it, t)
+		if ok && !v {
+			return triFalse
+		}
+		if !ok {
+			r = triUnknown
+			if prod != nil {
+				if a := it.ApplyTerm(t); a.IsPred() {
+					prod = prod.Mul(a)
+				} else {
+					prod = nil
+				}
+			}
+		}
+	}
+	if r == triUnknown && prod != nil {
+		if e := entailed(it, prod); e != triUnknown {
+			return e
+		}
+	}
+	return r
 }
 
 // lenIs reports whether the path fixes len(name) to n / excludes n.
